@@ -341,6 +341,15 @@ def run(ctx: Ctx) -> int:
     slow_acc = [p for p in pats if len(p[0]) == 3 and not p[1]]
     for (wr, cl, w) in rng.sample(slow_acc, min(len(slow_acc), 6 if not thorough else 30)):
         jobs.append(("acc-slow", wr, cl, w, 0.6))
+    # a PDU whose body is longer than one 4096-byte socket read (the body is collected over several recv() calls):
+    # cuts and closes at the read-size boundaries, next to the header and the end, and at sampled offsets
+    big = [pn.pdata_pdu(1, b"\x01" + bytes(range(1, 251)) * 28).encode(), frames[3]]
+    nb = len(big[0])
+    offs = sorted({1, 5, 6, 7, 4095, 4096, 4097, 4101, 4102, 4103, 6 + 4096 + 1, nb - 4096, nb - 1} | set(rng.sample(range(8, nb - 1), 40 if thorough else 8)))
+    for c in offs:
+        jobs.append(("acc-big", (c, nb - c, 10), False, nb + 10, 0.003))
+        jobs.append(("acc-big", (c,), True, c, 0.003))
+    jobs.append(("acc-big", (nb, 4), True, nb + 4, 0.003))
     lab = AcceptorLab()
     obs, lock = [], threading.Lock()
     errors = []
@@ -350,6 +359,8 @@ def run(ctx: Ctx) -> int:
             try:
                 if kind in ("acc", "acc-slow"):
                     o = run_acceptor_case(lab, frames, wr, cl, w, gap)
+                elif kind == "acc-big":
+                    o = run_acceptor_case(lab, big, wr, cl, w, gap)
                 elif kind == "rq":
                     o = run_acceptor_case(lab, frames, wr, cl, w, gap, on_rq=True)
                 else:
@@ -384,4 +395,4 @@ def run(ctx: Ctx) -> int:
     ctx.assume("TCP loopback with TCP_NODELAY and a pause between writes; the kernel may still coalesce pieces, which the property permits",
                "gaps: 3 ms, and 0.6-0.7 s (longer than connection_timeout 0.3 s on the requestor, shorter than the 5 s acse/dimse/network timeouts)")
     return ctx.finish(rule="write patterns (up to 2 cuts) and close points enumerated by TLC for the real PDU lengths: all single cuts and all close offsets, sampled double cuts, "
-                      "on the acceptor's P-DATA/RELEASE stream, the A-ASSOCIATE-RQ and the requestor's A-ASSOCIATE-AC; non-trivial = at least one cut or an early close")
+                      "on the acceptor's P-DATA/RELEASE stream, a 7 kB P-DATA-TF (body longer than one socket read) followed by A-RELEASE-RQ, the A-ASSOCIATE-RQ and the requestor's A-ASSOCIATE-AC; non-trivial = at least one cut or an early close")
